@@ -33,10 +33,14 @@ SameDomain(m, a, b) ==
     [] m.dom.kind = "regions"  -> \E i \in DOMAIN m.dom.regions :
                                      /\ InRegion(m.dom.regions[i], RegResid(m.atoms[a]))
                                      /\ InRegion(m.dom.regions[i], RegResid(m.atoms[b]))
-\* cx: residue representative per particle and residue-graph edges, computed once per input
-Ctx(m)              == LET rep == RepTable(m.atoms) IN [rep |-> rep, E |-> ResEdgesOf(rep, m.edges)]
+\* cx: residue representative per particle, residue-graph edges and, per residue, the residues within m.rmd edges of it
+\* (ball[r] = Ball(E, r, m.rmd)), computed once per input
+Ctx(m)              == LET rep == RepTable(m.atoms)
+                           E   == ResEdgesOf(rep, m.edges)
+                       IN [rep |-> rep, E |-> E, ball |-> [r \in Range(rep) |-> Ball(E, r, m.rmd)]]
 ResE(m)             == Ctx(m).E
-Separated(m, cx, a, b) == Far(cx.E, cx.rep[a], cx.rep[b], m.rmd)
+\* Far(cx.E, cx.rep[a], cx.rep[b], m.rmd), looked up
+Separated(m, cx, a, b) == cx.rep[b] \notin cx.ball[cx.rep[a]]
 Dist2(m, a, b)      == D2(m.atoms[a].pos, m.atoms[b].pos)
 Close(m, a, b)      == Dist2(m, a, b) <= m.up * m.up
 RawK(m, a, b)       == IF m.decay THEN m.rawk[a][b] ELSE m.base
@@ -60,8 +64,8 @@ Failing(m, cx, a, b) == {c \in DOMAIN Crit : ~Holds(m, cx, c, a, b)}
 HasNan(m) == \E a \in 1..NA(m) : m.atoms[a].sel /\ m.atoms[a].nan
 
 (* declarative form, shaped like the statement *)
-ExpectedDecl(m) == IF HasNan(m) THEN {}
-                   ELSE LET cx == Ctx(m) IN {p \in Pairs(m) : Failing(m, cx, p[1], p[2]) = {}}
+ExpectedWith(m, cx) == IF HasNan(m) THEN {} ELSE {p \in Pairs(m) : Failing(m, cx, p[1], p[2]) = {}}
+ExpectedDecl(m)     == ExpectedWith(m, Ctx(m))
 
 (* operational form, shaped like apply_rubber_band: matrices indexed by position in the selection,
    full-size connectivity / domain matrices sliced twice by the selection, upper triangle emitted *)
@@ -110,11 +114,12 @@ MkInput(sel, part, ch, dk, regs, rmd, up, minf, xl) ==
    rmd |-> rmd, up |-> up, base |-> Base, minf |-> minf, decay |-> FALSE, rawk |-> <<>>]
 
 RegsFor(dk) == IF dk = "regions" THEN TabRegions ELSE {<<>>}
-Inputs == UNION {{MkInput(sel, part, ch, dk, regs, rmd, up, minf, xl) :
-                    sel \in [1..NB -> BOOLEAN], part \in Partitions, ch \in ChainSplits, regs \in RegsFor(dk),
-                    rmd \in Rmds, up \in Ups, minf \in Minfs, xl \in BOOLEAN} : dk \in DomKinds}
-
-Init == m \in Inputs /\ out = NotYet
+\* one initial state per input (enumerated, never built as one set)
+Init == \E sel \in [1..NB -> BOOLEAN], part \in Partitions, ch \in ChainSplits, dk \in DomKinds,
+           rmd \in Rmds, up \in Ups, minf \in Minfs, xl \in BOOLEAN :
+          \E regs \in RegsFor(dk) :
+             /\ m = MkInput(sel, part, ch, dk, regs, rmd, up, minf, xl)
+             /\ out = NotYet
 Eval == /\ out = NotYet
         /\ out' = ExpectedDecl(m)
         /\ UNCHANGED m
